@@ -135,3 +135,35 @@ def install_registry():
     comp_id.componentIDs.update({'O': {'1000': 'bmc common function', '2700': 'bmc power', '3500': 'bmc fan'},
                                  'B': {'0100': 'hb trace'}})
     comp_id.attemptedToParseCompIDs = True
+
+
+COMP_TABLES = {'O': {'1000': 'bmc common function', '2000': 'bmc error logging', '3000': 'bmc state', 'ABCD': 'bmc letters'},
+               'B': {'0100': 'hb trace', '0200': 'hb errl', '2000': 'hb twenty'},
+               'M': {'2C00': 'drawer firmware'}}
+
+
+def install_comp_tables(dirpath, tables=None):
+    """component names as the tool finds them itself: <creator>_component_ids.json files under its configuration
+    root, read by its own loader on first use (the loader state is reset)"""
+    import json
+    import pel.peltool.comp_id as comp_id
+    tables = COMP_TABLES if tables is None else tables
+    os.makedirs(dirpath, exist_ok=True)
+    for fn in os.listdir(dirpath):
+        os.remove(os.path.join(dirpath, fn))
+    for cr, t in tables.items():
+        with open(os.path.join(dirpath, cr + '_component_ids.json'), 'w') as f:
+            json.dump(t, f)
+    with open(os.path.join(dirpath, 'message_registry.json'), 'w') as f:     # a neighbour file that is not a table
+        json.dump({'PELs': []}, f)
+    comp_id.pelConfigRootPath = dirpath
+    comp_id.componentIDs.clear()
+    comp_id.attemptedToParseCompIDs = False
+    return [dict(creator=ord(cr), comp=[ord(c) for c in k], name=[ord(c) for c in v])
+            for cr, t in sorted(tables.items()) for k, v in sorted(t.items())]
+
+
+def no_comp_tables():
+    import pel.peltool.comp_id as comp_id
+    comp_id.componentIDs.clear()
+    comp_id.attemptedToParseCompIDs = True
